@@ -413,3 +413,8 @@ Definition validate_cross (s : state) : bool :=
 (* ------------------------------------------------------------------ *)
 
 Definition validate_genesis (s : state) : bool := import_ok s && validate_rows s && validate_cross s.
+
+(* FeeParams.Validate is applied at genesis like every other state validator since the validateMsg case
+   was added (fix for the unvalidated fee params); kept as a separate conjunct so that the row theorems
+   and the fee-params theorem (MsgVsState.gov_set_fee_params_valid) stay independent *)
+Definition validate_genesis_full (s : state) : bool := validate_genesis s && fee_params_ok s.
